@@ -13,7 +13,8 @@ Ops: `new` | `ipset-add id typ` | `ipset-rm id` | `mem-add id m` | `mem-rm id m`
  | `gen-upd cat k tag` | `gen-rm cat k` | `route-upd dst tag ref` | `route-rm dst`
  | `vtep-upd node tag` | `vtep-rm node` | `wg-upd node pub4 addr4 pub6 addr6` | `wg-rm node`
  | `encap tag` | `bgp tag` | `flush`
- | `acg-new` | `acg-status wait|resync|insync` | `acg-upd` | `acg-tick` | `acg-end`
+ | `acg-new` | `acg-status wait|resync|insync` | `acg-upd` | `acg-upd wg node key` | `acg-del wg node`
+ | `acg-tick` | `acg-end`
 Output: `ok` / `panic` for calls; for `flush` the canonical message list.  The `acg-*` ops
 print the messages emitted while the PREVIOUS acg op was processed (see harness).
 -/
@@ -155,6 +156,8 @@ def step (d : DState) (line : String) : DState × String :=
   | ["acg-status", "resync"] => acgEvent d (.status .resyncInProgress [])
   | ["acg-status", "insync"] => acgEvent d (.status .inSync [])
   | ["acg-upd"] => acgEvent d (.updates [])
+  | ["acg-upd", "wg", n, k] => acgEvent d (.updates [.wgUpdate n ⟨tok k, "", "", ""⟩])
+  | ["acg-del", "wg", n] => acgEvent d (.updates [.wgRemove n])
   | ["acg-tick"] => acgEvent d .tick
   | ["acg-end"] => (d, d.held)
   | ws =>
